@@ -111,6 +111,9 @@ type ErrorDef struct {
 	// for custom object error types: attribute holding the error name, headers
 	NameField string            `json:"name_field,omitempty"`
 	Headers   map[string]string `json:"headers,omitempty"` // attr -> header
+	// EmptyBody: the response is declared with Body(Empty); a default-type error then travels in the goa-error and
+	// goa-attribute-* headers only
+	EmptyBody bool `json:"empty_body,omitempty"`
 	// Inherit "api": a method-level declaration whose HTTP response is the one mapped at API level
 	Inherit string `json:"inherit,omitempty"`
 }
